@@ -558,7 +558,7 @@ class ModelFittingDataTree(ProblemSingleObjective):
             idx_island: int
             params_array: xr.DataArray
             for idx_island, params_array in parameters.groupby("island"):
-                params: np.ndarray = params_array.squeeze().to_numpy()
+                params: np.ndarray = params_array.squeeze("island").to_numpy()
 
                 result_datatree: xr.DataTree = delayed(self._apply_parameters)(
                     processor=delayed_processor, parameter=params
